@@ -302,6 +302,11 @@ func (m *LifeMon) OnEvent(c *eng.Ctx, ms eng.MState, ev *eng.Event) eng.MState {
 			if len(ev.Results) > 0 && len(ev.Args) > 0 {
 				s.timers = appendTimer(s.timers, timerRec{eng.Load(eng.FieldAddr(ev.Results[0], 0)), ev.Args[0]})
 			}
+		case "time.Reset":
+			// timer.Reset(d) re-arms an existing timer: its channel fires after d
+			if len(ev.Args) >= 2 {
+				s.timers = appendTimer(s.timers, timerRec{eng.Load(eng.FieldAddr(ev.Args[0], 0)), ev.Args[1]})
+			}
 		case "time.Sleep":
 			chk("C20.R4", false, "time.Sleep is not interruptible by the context")
 			s.waited = true
